@@ -315,6 +315,8 @@ def keep_for_solving(ctx, batch):
 
 
 def run(ctx):
+    import source_facts
+    source_facts.check_layout(ctx, {'A': {'light': 0, 'robot_down': 1, 'robot_left_right': 2, 'prob': 3, 'total': 4, 'n_prob_groups': 1, 'n_robot_groups': 2}, 'B': {'light': 0, 'robot_down': 1, 'robot_left_right': 2, 'tile_break': 3, 'robot_down_break': 4, 'robot_left_break': 5, 'robot_right_break': 6, 'total': 7, 'n_prob_groups': 4, 'n_robot_groups': 2}, 'C': {'light': 0, 'robot_down': 1, 'robot_left_right': 2, 'robot_down_left_right': 3, 'tile_break': 4, 'robot_down_break': 5, 'robot_left_break': 6, 'robot_right_break': 7, 'light_red_break': 8, 'light_yellow_break': 9, 'total': 10, 'n_prob_groups': 6, 'n_robot_groups': 3}})
     import time
     nb = 0
     tm = {"impl+predicates+coq": 0.0, "solve": 0.0}
